@@ -4,6 +4,7 @@
 -/
 import Mathlib.Analysis.SpecialFunctions.ImproperIntegrals
 import Mathlib.Analysis.SpecialFunctions.Gaussian.FourierTransform
+import Mathlib.Analysis.SpecialFunctions.Integrals.Basic
 namespace Lcapy.Fourier.Anchors
 open Complex MeasureTheory
 
@@ -35,5 +36,172 @@ theorem gaussian :
     FourierTransform.fourier (fun t : ℝ => Complex.exp (-Real.pi * (t : ℂ) ^ 2)) = fun f : ℝ => Complex.exp (-Real.pi * (f : ℂ) ^ 2) := by
   have h := fourier_gaussian_pi (b := 1) (by simp)
   simpa using h
+
+
+section
+open intervalIntegral
+
+theorem kernel_ne_zero (f : ℝ) (hf : f ≠ 0) : -((2 * Real.pi * f : ℝ) : ℂ) * Complex.I ≠ 0 := by
+  have h : (2 * Real.pi * f : ℝ) ≠ 0 := mul_ne_zero (mul_ne_zero two_ne_zero Real.pi_ne_zero) hf
+  exact mul_ne_zero (neg_ne_zero.mpr (ofReal_ne_zero.mpr h)) I_ne_zero
+
+/-- rect ⟷ sinc:  ∫_{−1/2}^{1/2} e^{−j2πft} dt = sin(πf)/(πf)   (f ≠ 0; at f = 0 the integral is 1) -/
+theorem rect_sinc (f : ℝ) (hf : f ≠ 0) :
+    ∫ t in (-(1/2) : ℝ)..(1/2), Complex.exp (-((2 * Real.pi * f : ℝ) : ℂ) * Complex.I * t)
+      = ((Real.sin (Real.pi * f) / (Real.pi * f) : ℝ) : ℂ) := by
+  have hc := kernel_ne_zero f hf
+  rw [integral_exp_mul_complex hc]
+  have hpf : ((Real.pi * f : ℝ) : ℂ) ≠ 0 := ofReal_ne_zero.mpr (mul_ne_zero Real.pi_ne_zero hf)
+  have e1 : -((2 * Real.pi * f : ℝ) : ℂ) * Complex.I * ((1 / 2 : ℝ) : ℂ) = -(((Real.pi * f : ℝ) : ℂ)) * Complex.I := by
+    push_cast; ring
+  have e2 : -((2 * Real.pi * f : ℝ) : ℂ) * Complex.I * ((-(1 / 2) : ℝ) : ℂ) = (((Real.pi * f : ℝ) : ℂ)) * Complex.I := by
+    push_cast; ring
+  rw [e1, e2]
+  have e0 : -((2 * Real.pi * f : ℝ) : ℂ) * Complex.I = -(2 * ((Real.pi * f : ℝ) : ℂ)) * Complex.I := by push_cast; ring
+  rw [e0, ofReal_div, ofReal_sin, Complex.sin]
+  generalize ((Real.pi * f : ℝ) : ℂ) = x at *
+  have hI : Complex.I ≠ 0 := I_ne_zero
+  field_simp
+  ring_nf
+  rw [Complex.I_sq]; ring
+
+theorem rect_sinc_zero : ∫ t in (-(1/2) : ℝ)..(1/2), Complex.exp (-((2 * Real.pi * (0:ℝ) : ℝ) : ℂ) * Complex.I * t) = 1 := by
+  simp; norm_num
+
+
+/-- antiderivatives of (1 ∓ t) e^{ct} -/
+theorem hasDerivAt_tri_right (c : ℂ) (hc : c ≠ 0) (x : ℝ) :
+    HasDerivAt (fun t : ℝ => (1 - (t : ℂ)) * Complex.exp (c * t) / c + Complex.exp (c * t) / c ^ 2)
+      ((1 - (x : ℂ)) * Complex.exp (c * x)) x := by
+  have h1 : HasDerivAt (fun t : ℝ => (t : ℂ)) 1 x := Complex.ofRealCLM.hasDerivAt
+  have h3 : HasDerivAt (fun t : ℝ => Complex.exp (c * t)) (Complex.exp (c * x) * (c * 1)) x := (h1.const_mul c).cexp
+  have h4 : HasDerivAt (fun t : ℝ => 1 - (t : ℂ)) (0 - 1) x := (hasDerivAt_const x (1 : ℂ)).fun_sub h1
+  have h5 := ((h4.fun_mul h3).div_const c).fun_add (h3.div_const (c ^ 2))
+  refine h5.congr_deriv ?_
+  field_simp; ring
+
+theorem hasDerivAt_tri_left (c : ℂ) (hc : c ≠ 0) (x : ℝ) :
+    HasDerivAt (fun t : ℝ => (1 + (t : ℂ)) * Complex.exp (c * t) / c - Complex.exp (c * t) / c ^ 2)
+      ((1 + (x : ℂ)) * Complex.exp (c * x)) x := by
+  have h1 : HasDerivAt (fun t : ℝ => (t : ℂ)) 1 x := Complex.ofRealCLM.hasDerivAt
+  have h3 : HasDerivAt (fun t : ℝ => Complex.exp (c * t)) (Complex.exp (c * x) * (c * 1)) x := (h1.const_mul c).cexp
+  have h4 : HasDerivAt (fun t : ℝ => 1 + (t : ℂ)) (0 + 1) x := (hasDerivAt_const x (1 : ℂ)).fun_add h1
+  have h5 := ((h4.fun_mul h3).div_const c).fun_sub (h3.div_const (c ^ 2))
+  refine h5.congr_deriv ?_
+  field_simp; ring
+
+/-- tri ⟷ sinc²:  ∫_{−1}^{1} (1 − |t|) e^{−j2πft} dt = (sin(πf)/(πf))²   (f ≠ 0) -/
+theorem tri_sinc2 (f : ℝ) (hf : f ≠ 0) :
+    ∫ t in (-1 : ℝ)..1, ((1 - |t| : ℝ) : ℂ) * Complex.exp (-((2 * Real.pi * f : ℝ) : ℂ) * Complex.I * t)
+      = (((Real.sin (Real.pi * f) / (Real.pi * f)) ^ 2 : ℝ) : ℂ) := by
+  have hc := kernel_ne_zero f hf
+  set c : ℂ := -((2 * Real.pi * f : ℝ) : ℂ) * Complex.I with hcdef
+  have hcont : ∀ a b : ℝ, IntervalIntegrable (fun t : ℝ => ((1 - |t| : ℝ) : ℂ) * Complex.exp (c * t)) volume a b := by
+    intro a b
+    apply Continuous.intervalIntegrable
+    fun_prop
+  rw [← integral_add_adjacent_intervals (hcont (-1) 0) (hcont 0 1)]
+  have hL : ∫ t in (-1 : ℝ)..0, ((1 - |t| : ℝ) : ℂ) * Complex.exp (c * t)
+      = ∫ t in (-1 : ℝ)..0, (1 + (t : ℂ)) * Complex.exp (c * t) := by
+    apply integral_congr
+    intro t ht
+    rw [Set.uIcc_of_le (by norm_num : (-1 : ℝ) ≤ 0)] at ht
+    simp only [abs_of_nonpos ht.2]; push_cast; ring
+  have hR : ∫ t in (0 : ℝ)..1, ((1 - |t| : ℝ) : ℂ) * Complex.exp (c * t)
+      = ∫ t in (0 : ℝ)..1, (1 - (t : ℂ)) * Complex.exp (c * t) := by
+    apply integral_congr
+    intro t ht
+    rw [Set.uIcc_of_le (by norm_num : (0 : ℝ) ≤ 1)] at ht
+    simp only [abs_of_nonneg ht.1]; push_cast; ring
+  rw [hL, hR]
+  rw [integral_eq_sub_of_hasDerivAt (fun x _ => hasDerivAt_tri_left c hc x)
+        ((Continuous.intervalIntegrable (by fun_prop) _ _)),
+      integral_eq_sub_of_hasDerivAt (fun x _ => hasDerivAt_tri_right c hc x)
+        ((Continuous.intervalIntegrable (by fun_prop) _ _))]
+  simp only [ofReal_zero, ofReal_one, ofReal_neg, mul_zero, Complex.exp_zero, add_zero, sub_self, zero_mul, zero_div, mul_one,
+    add_neg_cancel, sub_zero, zero_add, zero_sub]
+  have e0 : c = -(2 * ((Real.pi * f : ℝ) : ℂ)) * Complex.I := by rw [hcdef]; push_cast; ring
+  rw [ofReal_pow, ofReal_div, ofReal_sin, Complex.sin]
+  rw [e0] at hc ⊢
+  have hx : ((Real.pi * f : ℝ) : ℂ) ≠ 0 := ofReal_ne_zero.mpr (mul_ne_zero Real.pi_ne_zero hf)
+  generalize ((Real.pi * f : ℝ) : ℂ) = x at *
+  have hI : Complex.I ≠ 0 := I_ne_zero
+  have e1 : Complex.exp (-(2 * x) * Complex.I) = Complex.exp (-x * Complex.I) ^ 2 := by
+    rw [← Complex.exp_nat_mul]; congr 1; ring
+  have e2 : Complex.exp (-(2 * x) * Complex.I * -1) = Complex.exp (x * Complex.I) ^ 2 := by
+    rw [← Complex.exp_nat_mul]; congr 1; ring
+  have e3 : Complex.exp (-x * Complex.I) * Complex.exp (x * Complex.I) = 1 := by
+    rw [← Complex.exp_add]; simp
+  rw [e1, e2]
+  generalize Complex.exp (-x * Complex.I) = A at *
+  generalize Complex.exp (x * Complex.I) = B at *
+  have key : A ^ 2 + B ^ 2 - 2 = (A - B) ^ 2 := by linear_combination 2 * e3
+  have hI2 : Complex.I ^ 2 = -1 := Complex.I_sq
+  have lhs : 1 / (-(2 * x) * Complex.I) - 1 / (-(2 * x) * Complex.I) ^ 2 - -(B ^ 2 / (-(2 * x) * Complex.I) ^ 2) +
+      (A ^ 2 / (-(2 * x) * Complex.I) ^ 2 - (1 / (-(2 * x) * Complex.I) + 1 / (-(2 * x) * Complex.I) ^ 2))
+      = (A ^ 2 + B ^ 2 - 2) / (-(2 * x) * Complex.I) ^ 2 := by
+    field_simp; ring
+  rw [lhs, key]
+  have den : (-(2 * x) * Complex.I) ^ 2 = -(4 * x ^ 2) := by ring_nf; rw [hI2]; ring
+  rw [den]
+  field_simp
+  ring_nf
+  rw [hI2]; ring
+
+
+/-- two-sided exponential:  ∫_{−∞}^{∞} e^{−α|t|} e^{−j2πft} dt = 1/(α + j2πf) + 1/(α − j2πf) = 2α/(α² + (2πf)²)   (α > 0)
+    — the sum of the pair `expu 0 α ⟷ cpole 1 α` and of its reflection, as the formal class represents `e^{−α|t|}` -/
+theorem two_sided_exponential (al f : ℝ) (h : 0 < al) :
+    ∫ t : ℝ, Complex.exp (-(al : ℂ) * ((|t| : ℝ) : ℂ)) * Complex.exp (-((2 * Real.pi * f : ℝ) : ℂ) * Complex.I * t)
+      = 1 / ((al : ℂ) + ((2 * Real.pi * f : ℝ) : ℂ) * Complex.I) + 1 / ((al : ℂ) - ((2 * Real.pi * f : ℝ) : ℂ) * Complex.I) := by
+  set w : ℂ := ((2 * Real.pi * f : ℝ) : ℂ) with hw
+  have hwre : (w * Complex.I).re = 0 := by simp [hw]
+  have hLre : 0 < ((al : ℂ) - w * Complex.I).re := by simp [hw]; exact h
+  have hRre : (-((al : ℂ) + w * Complex.I)).re < 0 := by simp [hw]; exact h
+  -- the integrand on each half line
+  have eL : ∀ t ∈ Set.Iic (0 : ℝ), Complex.exp (-(al : ℂ) * ((|t| : ℝ) : ℂ)) * Complex.exp (-w * Complex.I * t)
+      = Complex.exp (((al : ℂ) - w * Complex.I) * t) := by
+    intro t ht
+    rw [abs_of_nonpos ht, ← Complex.exp_add]; congr 1; push_cast; ring
+  have eR : ∀ t ∈ Set.Ioi (0 : ℝ), Complex.exp (-(al : ℂ) * ((|t| : ℝ) : ℂ)) * Complex.exp (-w * Complex.I * t)
+      = Complex.exp (-((al : ℂ) + w * Complex.I) * t) := by
+    intro t ht
+    rw [abs_of_pos ht, ← Complex.exp_add]; congr 1; ring
+  have iL : IntegrableOn (fun t : ℝ => Complex.exp (-(al : ℂ) * ((|t| : ℝ) : ℂ)) * Complex.exp (-w * Complex.I * t)) (Set.Iic 0) :=
+    (integrableOn_exp_mul_complex_Iic hLre 0).congr_fun (fun t ht => (eL t ht).symm) measurableSet_Iic
+  have iR : IntegrableOn (fun t : ℝ => Complex.exp (-(al : ℂ) * ((|t| : ℝ) : ℂ)) * Complex.exp (-w * Complex.I * t)) (Set.Ioi 0) :=
+    (integrableOn_exp_mul_complex_Ioi hRre 0).congr_fun (fun t ht => (eR t ht).symm) measurableSet_Ioi
+  rw [← integral_Iic_add_Ioi iL iR, setIntegral_congr_fun measurableSet_Iic eL, setIntegral_congr_fun measurableSet_Ioi eR,
+    integral_exp_mul_complex_Iic hLre, integral_exp_mul_complex_Ioi hRre]
+  have h1 : (al : ℂ) + w * Complex.I ≠ 0 := by
+    intro h0; have := congrArg Complex.re h0; simp [hw] at this; linarith
+  have h2 : (al : ℂ) - w * Complex.I ≠ 0 := by
+    intro h0; have := congrArg Complex.re h0; simp [hw] at this; linarith
+  simp only [ofReal_zero, mul_zero, Complex.exp_zero]
+  field_simp
+  ring
+
+/-- … in closed form -/
+theorem two_sided_exponential_closed (al f : ℝ) (h : 0 < al) :
+    ∫ t : ℝ, Complex.exp (-(al : ℂ) * ((|t| : ℝ) : ℂ)) * Complex.exp (-((2 * Real.pi * f : ℝ) : ℂ) * Complex.I * t)
+      = ((2 * al / (al ^ 2 + (2 * Real.pi * f) ^ 2) : ℝ) : ℂ) := by
+  rw [two_sided_exponential al f h]
+  have h1 : (al : ℂ) + ((2 * Real.pi * f : ℝ) : ℂ) * Complex.I ≠ 0 := by
+    intro h0; have := congrArg Complex.re h0; simp at this; linarith
+  have h2 : (al : ℂ) - ((2 * Real.pi * f : ℝ) : ℂ) * Complex.I ≠ 0 := by
+    intro h0; have := congrArg Complex.re h0; simp at this; linarith
+  have e : ((2 * al / (al ^ 2 + (2 * Real.pi * f) ^ 2) : ℝ) : ℂ)
+      = 2 * (al : ℂ) / (((al : ℂ) + ((2 * Real.pi * f : ℝ) : ℂ) * Complex.I) * ((al : ℂ) - ((2 * Real.pi * f : ℝ) : ℂ) * Complex.I)) := by
+    have : ((al : ℂ) + ((2 * Real.pi * f : ℝ) : ℂ) * Complex.I) * ((al : ℂ) - ((2 * Real.pi * f : ℝ) : ℂ) * Complex.I)
+        = ((al ^ 2 + (2 * Real.pi * f) ^ 2 : ℝ) : ℂ) := by
+      push_cast; ring_nf; rw [Complex.I_sq]; ring
+    rw [this]; push_cast; ring
+  rw [e]
+  generalize ((2 * Real.pi * f : ℝ) : ℂ) = w at *
+  field_simp
+  ring
+
+
+end
 
 end Lcapy.Fourier.Anchors
